@@ -189,4 +189,20 @@ theorem C09_copy_unfold_positive (P : Sem.Params) (hpers : Sem.AggPersistent P) 
     Sem.Stable (Sem.stdParams P) (after c ps ctx) T ↔ Sem.Stable (Sem.stdParams P) (beforeWith c ps ctx) T :=
   fold_all_existing P hpers c ps hne hps ctx hctx T
 
+/-! non-vacuity of the executable check: in `u(X) :- d(X).  a(X) :- d(X).  #show a/1.` the predicate `u/1` is defined
+and not used, so removing its rule keeps the answer sets up to `u/1` -/
+namespace C09ex
+open Proofs.C09sem Sem
+def atomL (n : String) (vs : List String) : BLit := .lit (.pos, .sym (.fn n (vs.map Term.var) false))
+def headL (n : String) (vs : List String) : Head := .lit (.pos, .sym (.fn n (vs.map Term.var) false))
+def prg : Prog :=
+  [.rule 1 1 (headL "u" ["X"]) [atomL "d" ["X"]], .rule 2 1 (headL "a" ["X"]) [atomL "d" ["X"]], .showSig "a" 1 true]
+set_option maxRecDepth 4000 in
+theorem check : unusedCheck "u" 1 prg = true := by
+  simp [unusedCheck, prg, headL, atomL, defRule, stmAvoids, predSig, headAvoids, bodyAvoids, blitAvoids, atomAvoids]
+example (P : Params) (T : Interp) (hT : Stable (stdParams P) (keep "u" 1 prg) T) :
+    Stable (stdParams P) prg (extend P "u" 1 prg T) :=
+  unused_sound P "u" 1 prg (C09_check_sound "u" 1 prg check) T hT
+end C09ex
+
 end NgoVerif
